@@ -78,6 +78,12 @@ func (a *adapter) Flight(key, cmd string, ttl time.Duration, now time.Time) (Red
 	}
 	verifLruGap(5)
 	a.mu.Lock()
+	// another caller may have completed a flight for this command since the read-locked lookup above:
+	// starting a second flight now would shield its fresh value from invalidations (del skips pending commands).
+	if v := a.store.Get(key + cmd); v.typ != 0 && v.relativePTTL(now) > 0 {
+		a.mu.Unlock()
+		return v, nil
+	}
 	entries := a.flights[key]
 	if entries == nil && a.flights != nil {
 		entries = make(map[string]CacheEntry, 1)
